@@ -74,6 +74,24 @@ def gen_input(kind, n, rng, period=None):
             else:
                 out += bytes([rng.randrange(256)]) * rng.randint(1, 12)
         return bytes(out[:n])
+    if kind == "randmix":
+        # incompressible with a few compressible islands: uncompressed chunks pending while the window slides
+        b = bytearray(rng.randbytes(n))
+        for _ in range(max(1, n // 150000)):
+            o = rng.randrange(max(1, n - 3000)); ln = rng.randint(200, 3000)
+            b[o:o + ln] = gen_input("text", min(ln, n - o), rng)
+        return bytes(b)
+    if kind == "srf":
+        # R | S | F (chunk-boundary adversary): F = random bytes; S = the 8-byte pieces F[4k..4k+8) separated by four
+        # random bytes, so every position of F has a short match ending a few bytes after the previous one: the
+        # optimal parser looks ahead as far as it can; R = `period` random bytes puts the start of F at a chosen
+        # offset relative to the LZMA2 chunk limits.  n is ignored (length = period + 1.5*tlen + tlen).
+        tlen = 5000
+        F = rng.randbytes(tlen)
+        S = bytearray()
+        for k in range((tlen - 8) // 4 + 1):
+            S += F[4 * k:4 * k + 8] + rng.randbytes(4)
+        return rng.randbytes(period) + bytes(S) + F
     if kind == "x86":
         # something a BCJ filter actually changes: CALL/JMP opcodes with small displacements
         out = bytearray()
@@ -300,45 +318,81 @@ def encode(plan, data, bias=0, seed=1):
                 segs = [(ln, lz.SYNC_FLUSH if a == lz.FULL_FLUSH else a) for ln, a in segs]
             if info["chain"] in ("x86", "arm64delta"):
                 segs = [(n, lz.FINISH)]       # keep the BCJ filter's view of the data one piece (see encrun docstring)
-            if e == "easy":
-                init_check(c.init("lzma_easy_encoder", info["preset32"], info["check"]), "lzma_easy_encoder")
-            elif e == "stream":
-                init_check(c.init("lzma_stream_encoder", info["filters"], info["check"]), "lzma_stream_encoder")
-            elif e == "stream_mt":
-                mt = lz.Mt(); mt.threads = int(plan.get("threads", 2)); mt.block_size = int(plan.get("bsize", 0))
-                mt.check = info["check"]; mt.timeout = 0
-                if plan.get("mtpreset"):
-                    mt.preset = info["preset32"]
-                else:
-                    mt.filters = C.cast(info["filters"], C.POINTER(lz.Filter))
-                c.keep = mt
-                init_check(c.init("lzma_stream_encoder_mt", C.byref(mt)), "lzma_stream_encoder_mt")
-            elif e == "alone":
-                init_check(c.init("lzma_alone_encoder", C.byref(info["opt"])), "lzma_alone_encoder")
-            elif e in ("raw1", "raw2"):
-                init_check(c.init("lzma_raw_encoder", info["filters"]), "lzma_raw_encoder")
-            elif e == "block":
-                b = lz.Block(); b.version = 1; b.check = info["check"]
-                b.filters = C.cast(info["filters"], C.POINTER(lz.Filter))
-                b.compressed_size = lz.VLI_UNKNOWN; b.uncompressed_size = lz.VLI_UNKNOWN
-                init_check(L.lzma_block_header_size(C.byref(b)), "lzma_block_header_size")
-                # like stream_encoder.c: the header is written before the data, with unknown sizes
-                hb = lz.Buf(b.header_size)
-                init_check(L.lzma_block_header_encode(C.byref(b), hb.addr), "lzma_block_header_encode")
-                if not hb.guards_ok():
-                    raise EncError("enc:guard", "lzma_block_header_encode wrote outside header_size")
-                R.blockhdr = hb.data()
-                init_check(c.init("lzma_block_encoder", C.byref(b)), "lzma_block_encoder")
-                R.blockinfo = b
-            elif e == "microlzma":
-                init_check(c.init("lzma_microlzma_encoder", C.byref(info["opt"])), "lzma_microlzma_encoder")
-                lim = plan.get("limit", "big")
-                if lim == "big":
-                    cap = out_bound(n) + 16          # plenty of room: everything must be encoded
-                else:
-                    cap = max(6, int(lim))
-                    R.limit = cap
-                grant = None
+            def do_init():
+                nonlocal cap, grant
+                if e == "easy":
+                    init_check(c.init("lzma_easy_encoder", info["preset32"], info["check"]), "lzma_easy_encoder")
+                elif e == "stream":
+                    init_check(c.init("lzma_stream_encoder", info["filters"], info["check"]), "lzma_stream_encoder")
+                elif e == "stream_mt":
+                    mt = lz.Mt(); mt.threads = int(plan.get("threads", 2)); mt.block_size = int(plan.get("bsize", 0))
+                    mt.check = info["check"]; mt.timeout = 0
+                    if plan.get("mtpreset"):
+                        mt.preset = info["preset32"]
+                    else:
+                        mt.filters = C.cast(info["filters"], C.POINTER(lz.Filter))
+                    c.keep = mt
+                    init_check(c.init("lzma_stream_encoder_mt", C.byref(mt)), "lzma_stream_encoder_mt")
+                elif e == "alone":
+                    init_check(c.init("lzma_alone_encoder", C.byref(info["opt"])), "lzma_alone_encoder")
+                elif e in ("raw1", "raw2"):
+                    init_check(c.init("lzma_raw_encoder", info["filters"]), "lzma_raw_encoder")
+                elif e == "block":
+                    b = lz.Block(); b.version = 1; b.check = info["check"]
+                    b.filters = C.cast(info["filters"], C.POINTER(lz.Filter))
+                    b.compressed_size = lz.VLI_UNKNOWN; b.uncompressed_size = lz.VLI_UNKNOWN
+                    init_check(L.lzma_block_header_size(C.byref(b)), "lzma_block_header_size")
+                    # like stream_encoder.c: the header is written before the data, with unknown sizes
+                    hb = lz.Buf(b.header_size)
+                    init_check(L.lzma_block_header_encode(C.byref(b), hb.addr), "lzma_block_header_encode")
+                    if not hb.guards_ok():
+                        raise EncError("enc:guard", "lzma_block_header_encode wrote outside header_size")
+                    R.blockhdr = hb.data()
+                    init_check(c.init("lzma_block_encoder", C.byref(b)), "lzma_block_encoder")
+                    R.blockinfo = b
+                    c.keep_blocks = getattr(c, "keep_blocks", []) + [b]
+                elif e == "microlzma":
+                    init_check(c.init("lzma_microlzma_encoder", C.byref(info["opt"])), "lzma_microlzma_encoder")
+                    lim = plan.get("limit", "big")
+                    if lim == "big":
+                        cap = out_bound(n) + 16          # plenty of room: everything must be encoded
+                    else:
+                        cap = max(6, int(lim))
+                        R.limit = cap
+                    grant = None
+            hist = plan.get("history", "fresh")
+            R.history = hist
+            if hist != "fresh":
+                # an earlier session on the SAME lzma_stream, abandoned without lzma_end(): the re-initialised encoder
+                # must behave like a fresh one (the caller compares with the output of a fresh handle)
+                do_init()
+                junk = gen_input("mixed", 3000, random.Random(seed + 5))
+                bs_ = int(plan.get("bsize", 0) or 0)
+                if e == "stream_mt" and bs_:
+                    junk = junk[:max(1, min(len(junk), bs_ - 1))]      # keep the Block open
+                jb = lz.Buf(len(junk), junk); job = lz.Buf(out_bound(len(junk)) + 64)
+                st = c.strm
+                st.next_in = jb.addr; st.avail_in = len(junk); st.next_out = job.addr
+                if e == "microlzma":
+                    st.avail_out = job.size; c.code_raw(lz.FINISH)                     # only LZMA_FINISH is supported
+                elif hist == "header":
+                    st.avail_out = 5; c.code_raw(lz.RUN)                               # stopped inside the first header
+                elif hist == "mid":
+                    st.avail_out = job.size; c.code_raw(lz.RUN)                        # input consumed, Block/stream open
+                else:                                                                  # "flushed"
+                    st.avail_out = job.size
+                    act = lz.FULL_FLUSH if e == "stream_mt" else (lz.SYNC_FLUSH if e in ("easy", "stream", "raw2", "block")
+                                                                  else lz.FINISH)
+                    for _ in range(1000):
+                        r_ = c.code_raw(act)
+                        if r_ != lz.OK:
+                            break
+                    # (whatever it returned - e.g. LZMA_OPTIONS_ERROR for LZMA_SYNC_FLUSH with a BCJ filter - the session
+                    # is abandoned; the re-initialised encoder must work all the same)
+                if not (jb.guards_ok() and job.guards_ok()):
+                    raise EncError("enc:guard", "encoder wrote outside the buffers it was given (abandoned session)")
+                c.keep_junk = (jb, job)
+            do_init()
             before = None
             R.update = None
             if plan.get("update", "none") == "props" and e in UPDATABLE:
